@@ -98,6 +98,29 @@ func TestReplayC05UndelegatingReportedBalancePanics(t *testing.T) {
 	t.Logf("REPLAY-NOT-CONFIRMED")
 }
 
+func TestReplayC05RedelegatingReportedBalancePanics(t *testing.T) {
+	app, ctx, users, vals := replay18decSetup(t)
+	e24, _ := math.NewIntFromString("1000000000000000000000000")
+	e18 := math.NewInt(1_000_000_000_000_000_000)
+	k := app.AllianceKeeper
+	_, err := k.Delegate(ctx, users[0], replayVal(t, k, ctx, vals[2]), sdk.NewCoin(AllianceDenom, e18))
+	require.NoError(t, err)
+	_, err = k.Delegate(ctx, users[0], replayVal(t, k, ctx, vals[0]), sdk.NewCoin(AllianceDenom, e24))
+	require.NoError(t, err)
+	reported := replayReported(t, k, ctx, users[0], vals[2])
+	var rec interface{}
+	var rerr error
+	func() {
+		defer func() { rec = recover() }()
+		_, rerr = k.Redelegate(ctx, users[0], replayVal(t, k, ctx, vals[2]), replayVal(t, k, ctx, vals[1]), sdk.NewCoin(AllianceDenom, reported))
+	}()
+	t.Logf("deposited %s, reported balance %s, redelegating it: err %v panic %v", e18, reported, rerr, rec)
+	if rec != nil {
+		t.Fatalf("REPLAY-CONFIRMED: redelegating the reported balance %s panics: %v", reported, rec)
+	}
+	t.Logf("REPLAY-NOT-CONFIRMED")
+}
+
 func TestReplayC04DepositAfterFullSlashCapturesTheStakedTotal(t *testing.T) {
 	app, ctx, users, vals := replay18decSetup(t)
 	k := app.AllianceKeeper
